@@ -167,6 +167,9 @@ def run_multi(build, n_static, events, use_scheduler=False, dispose_at=None, hor
         if after_warmup is not None:
             after_warmup()      # harness callbacks indexed by invocation restart their count
 
+    k2.CURRENT_TAG[0] = 0
+    del k2.RAISED[:]
+
     def on_next(v):
         env.log.append((env.tag, "emit", "N", v))
 
@@ -206,6 +209,7 @@ def run_multi(build, n_static, events, use_scheduler=False, dispose_at=None, hor
             break
         env.now = max(env.now, t)
         env.tag = len(inputs) + 1
+        k2.CURRENT_TAG[0] = env.tag
         try:
             if what == "src":
                 _, k, ev = pending.pop(0)
@@ -226,7 +230,8 @@ def run_multi(build, n_static, events, use_scheduler=False, dispose_at=None, hor
             env.escapes.append((env.tag, e))
         if len(inputs) > 400:
             break
-    return {"build_error": None, "env": env, "inputs": inputs, "log": env.log, "escapes": env.escapes}
+    return {"build_error": None, "env": env, "inputs": inputs, "log": env.log, "escapes": env.escapes,
+            "raised": list(k2.RAISED)}
 
 
 # ---- rendering --------------------------------------------------------------
